@@ -4,8 +4,10 @@ Under /venv/bin/python with PYTHONPATH=$OUTRANK_REPO.  stdin: {"cases": [{"Y": [
 "wiring": bool}.  Each call is exactly the call the pipeline makes in importance_estimator.numba_mi:
 int32 arrays, approximation_factor = np.float32(1.0).  Output: one line `@@RESULT <json>` with, per case,
 {"ok": true, "v": <float or "nan"/"inf"/"-inf">} or {"ok": false, "error": "..."}.
-With "wiring": true additionally drives importance_estimator.numba_mi for the heuristic names given in
-"wiring_names" on "wiring_pair" and reports the scores (used by C03 to confirm which names switch the flag on)."""
+With "wiring": true additionally drives importance_estimator.numba_mi / conduct_feature_ranking for the heuristic names
+given in "wiring_names" on "wiring_pair" and reports the scores and the flag handed to the estimator (C03: which names
+switch the correction on).  "histories": sequences of calls through the same entry points against preallocated buffers that
+are overwritten in place between calls (C03: the score is a function of the contents at call time)."""
 import json
 import math
 import sys
@@ -41,22 +43,83 @@ for case in payload.get("cases", []):
         out.append({"ok": False, "error": "%s: %s" % (type(e).__name__, str(e)[:300])})
 
 res = {"results": out}
-if payload.get("wiring"):
+
+
+def _guard(f):
+    try:
+        return f()
+    except BaseException as e:  # recorded outcome, decided by the harness
+        if isinstance(e, (KeyboardInterrupt, SystemExit)):
+            raise
+        return {"ok": False, "error": "%s: %s" % (type(e).__name__, str(e)[:300])}
+
+
+if payload.get("wiring") or payload.get("histories"):
+    import types
     w = {}
+    hres = []
     try:
         from outrank.algorithms import importance_estimator as ie  # noqa: E402
-        Yw = np.array(payload["wiring_pair"]["Y"], dtype=np.int64)
-        Xw = np.array(payload["wiring_pair"]["X"], dtype=np.int64)
-        for name in payload["wiring_names"]:
-            try:
-                w[name] = {"ok": True, "v": fl(ie.numba_mi(Yw.reshape(-1, 1), Xw, name, 1.0))}
-            except BaseException as e:
-                if isinstance(e, (KeyboardInterrupt, SystemExit)):
-                    raise
-                w[name] = {"ok": False, "error": "%s: %s" % (type(e).__name__, str(e)[:300])}
+
+        # read the flag actually handed to the estimator: importance_estimator looks the function up on the module at call
+        # time, so a recording wrapper around every `mutual_info_estimator_numba*` attribute sees it (None = not observed)
+        seen = []
+
+        def _wrap(fn):
+            def rec(*a, **k):
+                flag = k.get("cardinality_correction", a[3] if len(a) > 3 else None)
+                seen.append(None if flag is None else bool(flag))
+                return fn(*a, **k)
+            return rec
+        for nm in dir(rmn):
+            if nm.startswith("mutual_info_estimator_numba") and callable(getattr(rmn, nm)):
+                setattr(rmn, nm, _wrap(getattr(rmn, nm)))
+
+        def mkargs(name):
+            return types.SimpleNamespace(heuristic=name, mi_stratified_sampling_ratio=1.0, reference_model_JSON="",
+                                         label_column="label")
+
+        def call(via, Yv, Xv, name):
+            del seen[:]
+            if via == "numba_mi":
+                v = ie.numba_mi(Yv.reshape(-1, 1), Xv, name, 1.0)
+            elif via == "numba_mi_1d":
+                v = ie.numba_mi(Yv, Xv, name, 1.0)
+            else:
+                v = ie.conduct_feature_ranking(Yv, Xv, mkargs(name))
+            return {"ok": True, "v": fl(v), "flag_seen": list(seen)}
+
+        if payload.get("wiring"):
+            Yw = np.array(payload["wiring_pair"]["Y"], dtype=np.int64)
+            Xw = np.array(payload["wiring_pair"]["X"], dtype=np.int64)
+            for name in payload["wiring_names"]:
+                w[name] = {"numba_mi": _guard(lambda: call("numba_mi", Yw.copy(), Xw.copy(), name))}
+                if "MI-numba" in name:
+                    w[name]["conduct_feature_ranking"] = _guard(lambda: call("conduct_feature_ranking", Yw.copy(), Xw.copy(), name))
+
+        # histories: the same preallocated buffers are overwritten in place between calls (np.copyto), as a streaming loop
+        # with one label buffer would do; every call is compared with the model on the contents at call time
+        for h in payload.get("histories", []):
+            n = len(h["steps"][0]["X"])
+            T = np.zeros(n, dtype=np.int64)
+            F = np.zeros(n, dtype=np.int64)
+            steps = []
+            for st in h["steps"]:
+                np.copyto(T, np.array(st["X"], dtype=np.int64))
+                if h.get("reuse_feature"):
+                    np.copyto(F, np.array(st["Y"], dtype=np.int64))
+                    Yv = F
+                else:
+                    Yv = np.array(st["Y"], dtype=np.int64)
+                r = _guard(lambda: call(h["via"], Yv, T, h["heuristic"]))
+                if r["ok"] and not np.array_equal(T, np.array(st["X"], dtype=np.int64)):
+                    r["mutated_inputs"] = True
+                steps.append(r)
+            hres.append(steps)
     except BaseException as e:
         if isinstance(e, (KeyboardInterrupt, SystemExit)):
             raise
         w["__import__"] = {"ok": False, "error": "%s: %s" % (type(e).__name__, str(e)[:300])}
     res["wiring"] = w
+    res["histories"] = hres
 print("@@RESULT " + json.dumps(res))
